@@ -68,10 +68,15 @@ ArriveCore(q, keys, names, fail) ==
                   lo |-> done, ran |-> <<>>, wasCleared |-> cleared]) @@ rq
   /\ UNCHANGED <<pmin, pmax, free, holder, transit, dc, cur, cleared, inst, vers, done, pend, model>>
 
-\* hook "pop": instance i was taken out of its list for request q
-PopCore(q, i) ==
+\* instances of the same list (resident: below pmin, additional: the others) that are free
+SameList(i, F) == {j \in F : (j < pmin) = (i < pmin)}
+
+\* hook "pop": instance i was taken out of its list for request q; n = length of
+\* that list after the pop, as the implementation sees it
+PopCore(q, i, n) ==
   /\ q \in DOMAIN rq /\ rq[q].st = "arrived"
   /\ i \in free /\ holder[i] = None
+  /\ n = Cardinality(SameList(i, free \ {i}))
   /\ free' = free \ {i}
   /\ holder' = [holder EXCEPT ![i] = q]
   /\ dc' = [dc EXCEPT ![i] = [k \in rq[q].keys |-> q] @@ @]
@@ -138,8 +143,9 @@ ReturnCore(q, err, vals, checkVersion) ==
 \* hook "push": instance i is back in its list.  The push goroutine may log
 \* before the driver logs the return of the request, so a push of an instance
 \* still held performs the release as well.
-PushCore(i) ==
+PushCore(i, n) ==
   /\ i \in Insts
+  /\ n = Cardinality(SameList(i, free \cup {i}))      \* no instance was dropped from the list
   /\ IF i \in transit
      THEN /\ transit' = transit \ {i} /\ free' = free \cup {i}
           /\ UNCHANGED <<holder, dc, rq>>
